@@ -86,7 +86,7 @@ class LoopSpec:
 class Spec:
     def __init__(self, qual, params, returns="none", requires=(), ensures=(), aux=(), raises=None,
                  modifies=(), loops=None, inline=False, locals=None, pure=False, hints=(),
-                 trusted=False, fresh=(), cases=None, at=None, ghost=None, ghost_calls=None, reveal=(), bind=None):
+                 trusted=False, fresh=(), cases=None, at=None, ghost=None, ghost_calls=None, reveal=(), bind=None, decreases=None):
         self.qual = qual
         self.params = params            # ordered dict name -> kind text
         self.returns = returns
@@ -105,6 +105,7 @@ class Spec:
         self.ghost = ghost or {}        # ghost parameters (name -> kind text)
         self.ghost_calls = ghost_calls or {}   # callee short name -> {ghost param -> expression in the caller}
         self.cases = cases
+        self.decreases = decreases      # variant expression over the parameters (recursive functions)
         self.bind = bind or {}          # function-valued parameter -> qualified name of the function it is fixed to
 
 
@@ -182,7 +183,7 @@ class Ctx:
         if z3.is_false(st.pc):
             return
         cases = getattr(self, "case_conds", None)
-        if cases and kind in ("safety", "call-pre", "raise"):
+        if cases and kind in ("safety", "call-pre", "raise", "loop-init", "loop-preserve", "hint", "loop-variant", "variant", "frame"):
             for cn, cc in cases:
                 self.obls.append(Obligation("%s/%s[%s]" % (self.prefix, name, cn), len(self.hyps), st.pc,
                                             implies(cc, claim), kind, line, carry))
@@ -862,10 +863,35 @@ class Executor:
             if n in formals:
                 formals[n], sc = coerce(formals[n], self.kind_of(ktxt))
                 self.check(st, "arg-kind:" + fi.short + "." + n, sc, node, kind="call-pre")
+        # ghost parameters: taken from the caller's ghost_calls map, else from a caller variable of the same name
+        for g, ktxt in spec.ghost.items():
+            src = None
+            if self.spec is not None:
+                src = self.spec.ghost_calls.get(fi.short, {}).get(g)
+            if src is not None:
+                saved = self.spec_mode
+                self.spec_mode = True
+                try:
+                    gv = self.eval(ast.parse(src, mode="eval").body, st)
+                finally:
+                    self.spec_mode = saved
+            elif g in st.vars and st.vars[g] is not POISON:
+                gv = st.vars[g]
+            else:
+                raise OutOfSubset("%s: no value for ghost parameter %s of %s" % (self.fi.qual, g, fi.qual))
+            formals[g], _ = coerce(gv, self.kind_of(ktxt))
         sub = Executor(self.ctx, fi, spec)
         sub.spec_mode = True
         sub.bound = self.bound
         pre = State(formals, dict(st.heap), st.pc)
+        if spec.decreases is not None and self.ctx.top_exec is not None and fi.qual == self.ctx.top_exec.fi.qual \
+                and not self.spec_mode:
+            # recursive call: the variant is non-negative at entry and strictly smaller for the callee
+            top = self.ctx.top_exec
+            v0 = to_int(top.eval_spec_term(spec.decreases, top.old_state))
+            v1 = to_int(sub.eval_spec_term(spec.decreases, pre))
+            self.ctx.oblige(st, "%svariant:%s@%s" % (self.tag, fi.short, self._site(node)), and_(v0 >= 0, v1 < v0),
+                            "variant", getattr(node, "lineno", None))
         sub.old_state = pre
         for i, r in enumerate(spec.requires):
             c = sub.eval_spec(r[1] if isinstance(r, tuple) else r, pre)
@@ -910,6 +936,22 @@ class Executor:
         for e in spec.ensures:
             self.ctx.assume(st, sub.eval_spec(e[1] if isinstance(e, tuple) else e, post), defs)
         st.heap = post.heap
+        if self is self.ctx.top_exec and not self.spec_mode and isinstance(node, ast.Call):
+            # ghost name for the result of the n-th call (source order) of this callee: ret<n>_<name>, for hints
+            occ = self.__dict__.get("_call_occ")
+            if occ is None:
+                occ, cnt = {}, {}
+                calls = [x for x in ast.walk(self.fi.node) if isinstance(x, ast.Call)]
+                for c in sorted(calls, key=lambda x: (x.lineno, x.col_offset)):
+                    f = c.func
+                    nm = f.id if isinstance(f, ast.Name) else (f.attr if isinstance(f, ast.Attribute) else None)
+                    if nm:
+                        cnt[nm] = cnt.get(nm, 0) + 1
+                        occ[id(c)] = (nm, cnt[nm])
+                self._call_occ = occ
+            if id(node) in occ and res.terms:
+                nm, k = occ[id(node)]
+                st.vars["ret%d_%s" % (k, nm.lstrip("_"))] = res
         return res
 
     def raise_exc(self, st, exc, node):
@@ -923,6 +965,14 @@ class Executor:
             allowed = topex.eval_spec(top.raises[exc], topex.old_state)
         self.ctx.oblige(st, "%sraise:%s@%s" % (self.tag, exc, self._site(node)), allowed, "raise",
                         getattr(node, "lineno", None))
+
+    def eval_spec_term(self, text, st):
+        saved = self.spec_mode
+        self.spec_mode = True
+        try:
+            return self.eval(ast.parse(text.strip(), mode="eval").body, st)
+        finally:
+            self.spec_mode = saved
 
     def eval_spec(self, text, st):
         """Evaluate a contract clause (a Python expression string, or a callable) to a z3 Bool."""
